@@ -453,7 +453,7 @@ void World::CheckOutput(const InvRecord& r) {
   if (IoFault(r) && (r.res.err.find("ninja: fatal: ") != std::string::npos || r.res.out.find("ninja: fatal: ") != std::string::npos)) return;
   const std::string& T = r.res.out;
   bool smart = r.plan.tty && !r.plan.verbose && !r.plan.quiet;
-  bool color = r.plan.tty;   // colour support is decided from the terminal alone, whatever the verbosity
+  bool color = r.plan.Color();   // colour support is decided from the terminal and the colour variables, whatever the verbosity
   bool interrupted = r.interrupted && (T.find("interrupted by user") != std::string::npos || r.res.err.find("interrupted by user") != std::string::npos);
   bool died_by_signal = r.res.fired.count("killed_by_default_action") > 0;
   if (died_by_signal) return;
